@@ -1041,6 +1041,12 @@ def walk_paths(body, start_bb, visit, state=None, stop=None, limit=4000):
             d = t["dest"]["l"]
             st.pop(d, None)
             nm = _norm(t["callee"].get("path", ""))
+            if nm == "std::ops::FromResidual::from_residual":
+                ds = (t["dest"].get("ty") or {}).get("adt")
+                if ds == "std::result::Result":
+                    st[d] = "Err"
+                elif ds == "std::option::Option":
+                    st[d] = "None"
             if nm == "std::ops::Try::branch" and t["args"]:
                 p = op_place(t["args"][0])
                 if p is not None and not p["p"] and p["l"] in st:
